@@ -8,6 +8,7 @@ import (
 	"go/token"
 	"path/filepath"
 	"sort"
+	"strconv"
 	"strings"
 )
 
@@ -89,6 +90,13 @@ func (t *tr) xexpr(e ast.Expr) string {
 			}
 		}
 	case *ast.BinaryExpr:
+		if (e.Op == token.EQL || e.Op == token.NEQ) && (t.stringy(e.X) || t.stringy(e.Y)) {
+			r := t.strEq(e.X, e.Y)
+			if e.Op == token.NEQ {
+				r = "(!" + r + ")"
+			}
+			return r
+		}
 		a, b := t.xexpr(e.X), t.xexpr(e.Y)
 		if op, ok := natOps[e.Op]; ok {
 			return "(" + a + " " + op + " " + b + ")"
@@ -99,6 +107,82 @@ func (t *tr) xexpr(e ast.Expr) string {
 	}
 	die("untranslatable expression %s at %s", canon(e), fset.Position(e.Pos()))
 	return ""
+}
+
+// strConst: the value of a string constant expression (a literal, a string constant of the package, a
+// concatenation of these)
+func (p *pkgInfo) strConst(e ast.Expr, depth int) (string, bool) {
+	if depth > 20 {
+		return "", false
+	}
+	switch e := e.(type) {
+	case *ast.ParenExpr:
+		return p.strConst(e.X, depth+1)
+	case *ast.BasicLit:
+		if e.Kind == token.STRING {
+			if s, err := strconv.Unquote(e.Value); err == nil {
+				return s, true
+			}
+		}
+	case *ast.Ident:
+		if c, ok := p.consts[e.Name]; ok {
+			return p.strConst(c, depth+1)
+		}
+	case *ast.BinaryExpr:
+		if e.Op == token.ADD {
+			a, ok1 := p.strConst(e.X, depth+1)
+			b, ok2 := p.strConst(e.Y, depth+1)
+			return a + b, ok1 && ok2
+		}
+	}
+	return "", false
+}
+
+// stringy: a string constant, or a conditional whose branches are stringy (what a function like
+// PSITableID.Type() reduces to)
+func (t *tr) stringy(e ast.Expr) bool {
+	if _, ok := t.p.strConst(e, 0); ok {
+		return true
+	}
+	switch e := e.(type) {
+	case *ast.ParenExpr:
+		return t.stringy(e.X)
+	case *ast.CallExpr:
+		if _, a, b, ok := isIte(e); ok {
+			return t.stringy(a) && t.stringy(b)
+		}
+	}
+	return false
+}
+
+// strEq translates a == b on stringy operands: the comparison is pushed through the conditionals down to the
+// constants, where it is decided here.  The Lean term contains no strings: `t.Type() == "Unknown"` becomes a
+// conditional over the tests of Type() with leaves true / false.
+func (t *tr) strEq(a, b ast.Expr) string {
+	for {
+		if p, ok := a.(*ast.ParenExpr); ok {
+			a = p.X
+		} else if p, ok := b.(*ast.ParenExpr); ok {
+			b = p.X
+		} else {
+			break
+		}
+	}
+	if c, x, y, ok := isIte(a); ok {
+		return "(if " + t.xexpr(c) + " then " + t.strEq(x, b) + " else " + t.strEq(y, b) + ")"
+	}
+	if c, x, y, ok := isIte(b); ok {
+		return "(if " + t.xexpr(c) + " then " + t.strEq(a, x) + " else " + t.strEq(a, y) + ")"
+	}
+	u, ok1 := t.p.strConst(a, 0)
+	v, ok2 := t.p.strConst(b, 0)
+	if !ok1 || !ok2 {
+		die("untranslatable string comparison %s == %s at %s", canon(a), canon(b), fset.Position(a.Pos()))
+	}
+	if u == v {
+		return "true"
+	}
+	return "false"
 }
 
 var fns = []fn{
@@ -157,13 +241,22 @@ func emitExprsAndFacts(p *pkgInfo, out string) map[string]interface{} {
 	var fb strings.Builder
 	fb.WriteString("-- REGENERATED by /verif/extract: structural facts about /repo's source. Do not edit.\nnamespace Astits.Generated.Facts\n\n")
 
-	// 1. package-level variables
-	fmt.Fprintf(&fb, "def packageVars : List String := %s\n\n", leanStrList(p.vars))
+	// 1. package-level variables: all of them (informative), and the ones that are written (tables.go)
+	fmt.Fprintf(&fb, "/-- (informative) every package-level variable -/\ndef packageVars : List String := %s\n\n", leanStrList(p.vars))
 	facts["packageVars"] = p.vars
+	written := p.writtenNames()
+	fmt.Fprintf(&fb, "/-- the package-level variables that are modified, or handed out in a way that allows modifying them, anywhere outside their own declaration: assigned (also an element, field or pointee), address taken, destination of append / copy, a method called that is not a value-receiver method of the package, sliced, or (slices, maps, pointers, …) the value itself passed on, stored or returned -/\ndef packageVarsWritten : List String := %s\n\n", leanStrList(written))
+	facts["packageVarsWritten"] = written
+	where := []string{}
+	for _, w := range p.varsWritten() {
+		where = append(where, w.name+": "+w.where+": "+w.why)
+	}
+	fmt.Fprintf(&fb, "/-- (informative) where and how -/\ndef packageVarsWrittenWhere : List String := %s\n\n", leanStrList(where))
+	facts["packageVarsWrittenWhere"] = where
 
 	// 2. order of the tests in packetAccumulator.add
 	order := addOrder(p)
-	fmt.Fprintf(&fb, "def accumulatorAddOrder : List String := %s\n\n", leanStrList(order))
+	fmt.Fprintf(&fb, "/-- the tests of packetAccumulator.add: per `if` statement, in source order, the sorted set of the tests in its condition (locals replaced by their definitions) -/\ndef accumulatorAddOrder : List String := %s\n\n", leanStrList(order))
 	facts["accumulatorAddOrder"] = order
 
 	// 3. NextBytesNoCopy results: how each is used
@@ -193,33 +286,192 @@ func leanStrList(xs []string) string {
 	return "[" + strings.Join(q, ", ") + "]"
 }
 
+// substIdents copies e with the identifiers bound in env replaced by their values (parenthesised).  Node
+// types it does not know are returned unchanged.
+func substIdents(e ast.Expr, env map[string]ast.Expr) ast.Expr {
+	switch e := e.(type) {
+	case *ast.Ident:
+		if v, ok := env[e.Name]; ok {
+			return &ast.ParenExpr{X: v}
+		}
+	case *ast.ParenExpr:
+		return &ast.ParenExpr{X: substIdents(e.X, env)}
+	case *ast.SelectorExpr:
+		return &ast.SelectorExpr{X: substIdents(e.X, env), Sel: e.Sel}
+	case *ast.IndexExpr:
+		return &ast.IndexExpr{X: substIdents(e.X, env), Index: substIdents(e.Index, env)}
+	case *ast.StarExpr:
+		return &ast.StarExpr{X: substIdents(e.X, env)}
+	case *ast.UnaryExpr:
+		return &ast.UnaryExpr{Op: e.Op, X: substIdents(e.X, env)}
+	case *ast.BinaryExpr:
+		return &ast.BinaryExpr{X: substIdents(e.X, env), Op: e.Op, Y: substIdents(e.Y, env)}
+	case *ast.CallExpr:
+		c := &ast.CallExpr{Fun: substIdents(e.Fun, env), Ellipsis: e.Ellipsis}
+		for _, a := range e.Args {
+			c.Args = append(c.Args, substIdents(a, env))
+		}
+		return c
+	}
+	return e
+}
+
+// assignedIdents: the local variables that the statements assign (=, op=, ++, --; not :=)
+func assignedIdents(list []ast.Stmt) map[string]bool {
+	out := map[string]bool{}
+	for _, s := range list {
+		ast.Inspect(s, func(n ast.Node) bool {
+			switch x := n.(type) {
+			case *ast.AssignStmt:
+				if x.Tok != token.DEFINE {
+					for _, l := range x.Lhs {
+						if id, ok := l.(*ast.Ident); ok {
+							out[id.Name] = true
+						}
+					}
+				}
+			case *ast.IncDecStmt:
+				if id, ok := x.X.(*ast.Ident); ok {
+					out[id.Name] = true
+				}
+			case *ast.RangeStmt:
+				for _, l := range []ast.Expr{x.Key, x.Value} {
+					if id, ok := l.(*ast.Ident); ok && x.Tok == token.ASSIGN {
+						out[id.Name] = true
+					}
+				}
+			}
+			return true
+		})
+	}
+	return out
+}
+
+// addOrder: the ORDER OF THE TESTS in packetAccumulator.add.  For every `if` statement of the function, in
+// source order, the set of the tests that occur in its condition: the calls of hasDiscontinuity,
+// isSameAsPrevious and isPSIComplete and the payload-unit-start flag of the packet.  The condition is looked at
+// after every local variable in it has been replaced by its definition (`dup := isSameAsPrevious(mps, p)` …
+// `if dup && …`), and the tests of one condition are reported as a sorted set ("a+b+c"), so that hoisting a pure
+// sub-condition into a local and re-ordering or re-bracketing one condition (De Morgan) do not change the fact,
+// while moving a test from one `if` to another, dropping one, or swapping two `if`s does.  `if`s without any of
+// the tests are not listed.
 func addOrder(p *pkgInfo) []string {
 	fd := p.funcs["packetAccumulator.add"]
 	if fd == nil {
 		die("packetAccumulator.add not found")
 	}
-	type hit struct {
-		pos  token.Pos
-		what string
+	if len(fd.Type.Params.List) != 1 || len(fd.Type.Params.List[0].Names) != 1 {
+		die("packetAccumulator.add: unexpected parameter list")
 	}
-	var hits []hit
-	ast.Inspect(fd.Body, func(n ast.Node) bool {
-		switch x := n.(type) {
-		case *ast.IfStmt:
-			c := render(x.Cond)
-			for _, k := range []string{"hasDiscontinuity(", "isSameAsPrevious(", "p.Header.PayloadUnitStartIndicator", "isPSIComplete("} {
-				if strings.Contains(c, k) {
-					hits = append(hits, hit{x.Pos(), strings.TrimSuffix(k, "(")})
+	pkt := fd.Type.Params.List[0].Names[0].Name
+	// test -> its name in the fact (the packet is called p there, whatever the parameter is called)
+	tests := [][2]string{{"hasDiscontinuity(", "hasDiscontinuity"}, {"isSameAsPrevious(", "isSameAsPrevious"},
+		{"(" + pkt + ").Header.PayloadUnitStartIndicator", "p.Header.PayloadUnitStartIndicator"},
+		{pkt + ".Header.PayloadUnitStartIndicator", "p.Header.PayloadUnitStartIndicator"}, {"isPSIComplete(", "isPSIComplete"}}
+	out := []string{}
+	clone := func(env map[string]ast.Expr) map[string]ast.Expr {
+		n := map[string]ast.Expr{}
+		for k, v := range env {
+			n[k] = v
+		}
+		return n
+	}
+	var walk func(list []ast.Stmt, env map[string]ast.Expr)
+	walk = func(list []ast.Stmt, env map[string]ast.Expr) {
+		for _, st := range list {
+			switch s := st.(type) {
+			case *ast.AssignStmt:
+				if (s.Tok == token.DEFINE || s.Tok == token.ASSIGN) && len(s.Lhs) == len(s.Rhs) {
+					vals := make([]ast.Expr, len(s.Rhs))
+					for i, r := range s.Rhs {
+						vals[i] = substIdents(r, env)
+					}
+					for i, l := range s.Lhs {
+						if id, ok := l.(*ast.Ident); ok {
+							if id.Name == pkt {
+								die("packetAccumulator.add (%s): the packet parameter is assigned", fset.Position(s.Pos()))
+							}
+							env[id.Name] = vals[i]
+						}
+					}
+					continue
+				}
+				for _, l := range s.Lhs {
+					if id, ok := l.(*ast.Ident); ok {
+						delete(env, id.Name)
+					}
+				}
+			case *ast.DeclStmt:
+				if gd, ok := s.Decl.(*ast.GenDecl); ok {
+					for _, sp := range gd.Specs {
+						if vs, ok := sp.(*ast.ValueSpec); ok {
+							for i, n := range vs.Names {
+								if len(vs.Values) == len(vs.Names) {
+									env[n.Name] = substIdents(vs.Values[i], env)
+								} else {
+									delete(env, n.Name)
+								}
+							}
+						}
+					}
+				}
+			case *ast.IfStmt:
+				inner := clone(env)
+				if s.Init != nil {
+					walk([]ast.Stmt{s.Init}, inner)
+				}
+				c := render(substIdents(s.Cond, inner))
+				found := map[string]bool{}
+				for _, t := range tests {
+					if strings.Contains(c, t[0]) {
+						found[t[1]] = true
+					}
+				}
+				if len(found) > 0 {
+					var names []string
+					for n := range found {
+						names = append(names, n)
+					}
+					sort.Strings(names)
+					out = append(out, strings.Join(names, "+"))
+				}
+				walk(s.Body.List, clone(inner))
+				branches := append([]ast.Stmt{}, s.Body.List...)
+				if s.Else != nil {
+					walk(elseList(s.Else), clone(inner))
+					branches = append(branches, s.Else)
+				}
+				for n := range assignedIdents(branches) {
+					delete(env, n)
+				}
+			case *ast.BlockStmt:
+				walk(s.List, clone(env))
+				for n := range assignedIdents(s.List) {
+					delete(env, n)
+				}
+			default:
+				// loops, switches, …: what they assign is unknown afterwards (and inside); nested ifs are still listed
+				for n := range assignedIdents([]ast.Stmt{st}) {
+					delete(env, n)
+				}
+				var bodies [][]ast.Stmt
+				switch s := st.(type) {
+				case *ast.ForStmt:
+					bodies = append(bodies, s.Body.List)
+				case *ast.RangeStmt:
+					bodies = append(bodies, s.Body.List)
+				case *ast.SwitchStmt:
+					for _, c := range s.Body.List {
+						bodies = append(bodies, c.(*ast.CaseClause).Body)
+					}
+				}
+				for _, b := range bodies {
+					walk(b, clone(env))
 				}
 			}
 		}
-		return true
-	})
-	sort.Slice(hits, func(i, j int) bool { return hits[i].pos < hits[j].pos })
-	var out []string
-	for _, h := range hits {
-		out = append(out, h.what)
 	}
+	walk(fd.Body.List, map[string]ast.Expr{})
 	return out
 }
 
